@@ -253,6 +253,11 @@ func init() {
 		m.objSeq++
 		return m.mkValue(m.cellOf(t, &Map{id: m.objSeq}))
 	})
+	R("reflect.MakeMapWithSize", func(m *Machine, c *frame, a []value) value { // the size is a capacity hint only
+		t := typeOfVal(a[0])
+		m.objSeq++
+		return m.mkValue(m.cellOf(t, &Map{id: m.objSeq}))
+	})
 	R("reflect.MakeSlice", func(m *Machine, c *frame, a []value) value {
 		t := typeOfVal(a[0])
 		return m.mkValue(m.cellOf(t, m.makeSlice(t, a[1].(Scalar), a[2].(Scalar), types.Typ[types.Int])))
